@@ -857,6 +857,32 @@ func (rn *c13Runner) step(when string, i int, op c13Op) *vlib.Failure {
 		desc := fmt.Sprintf("%s: after detach(%s, %s)", when, rn.show(p), rn.show(x))
 		m.unlink(x)
 		return rn.check(desc)
+	case "detachagain":
+		// detach of an object that is not on any list (detached before, or never attached) from
+		// an object that has children: there is nothing to take out, nothing may change
+		var loose, parents []int
+		for _, n := range m.liveNodes() {
+			if n != 0 && m.nodes[n].parent < 0 {
+				loose = append(loose, n)
+			}
+			if len(m.nodes[n].kids) > 0 {
+				parents = append(parents, n)
+			}
+		}
+		if len(loose) == 0 || len(parents) == 0 {
+			res.bump("skipped:detachagain")
+			return nil
+		}
+		x, p := loose[c13Mod(op.A, len(loose))], parents[c13Mod(op.B, len(parents))]
+		if x == p {
+			res.bump("skipped:detachagain")
+			return nil
+		}
+		res.bump("detach:of-an-object-that-is-not-attached")
+		if pc := vlib.Catch(func() { tree.detach(rn.obj(p), rn.obj(x)) }); pc.Panicked {
+			return vlib.Failf("%s: detach(%s, %s) of an object that is not attached crashed: %v", when, rn.show(p), rn.show(x), pc)
+		}
+		return rn.check(fmt.Sprintf("%s: after detach(%s, %s) of an object that is not attached anywhere", when, rn.show(p), rn.show(x)))
 	case "free":
 		var cands []int
 		for _, n := range m.liveNodes() {
@@ -967,7 +993,7 @@ func (rn *c13Runner) childPos(parent, child int) string {
 // generators
 
 var c13OpKinds = func() []string {
-	w := map[string]int{"named": 10, "obj": 8, "add": 14, "chain": 1, "append": 14, "after": 10, "detach": 8, "free": 9, "freebad": 2, "find": 24}
+	w := map[string]int{"named": 10, "obj": 8, "add": 14, "chain": 1, "append": 14, "after": 10, "detach": 8, "detachagain": 3, "free": 9, "freebad": 2, "find": 24}
 	var ks []string
 	for k := range w {
 		ks = append(ks, k)
@@ -1076,6 +1102,9 @@ func c13GenOp(t *rapid.T) c13Op {
 		op.B = sel("target")
 	case "detach", "free", "freebad":
 		op.A = sel("node")
+	case "detachagain":
+		op.A = sel("node")
+		op.B = sel("parent")
 	case "find":
 		op.L = c13GenLookup(t)
 	}
